@@ -141,17 +141,108 @@ pub fn ex_name(e: ExceptionCode) -> String {
     }
 }
 
+/// the public function codes of the Modbus application protocol (V1.1b3, section 5.1) – the
+/// harness's own table, for the same reason as `ex_from_spec`
+pub fn fc_from_spec(v: u8) -> FunctionCode {
+    use FunctionCode::*;
+    match v {
+        0x01 => ReadCoils,
+        0x02 => ReadDiscreteInputs,
+        0x03 => ReadHoldingRegisters,
+        0x04 => ReadInputRegisters,
+        0x05 => WriteSingleCoil,
+        0x06 => WriteSingleRegister,
+        0x07 => ReadExceptionStatus,
+        0x08 => Diagnostics,
+        0x0B => GetCommEventCounter,
+        0x0C => GetCommEventLog,
+        0x0F => WriteMultipleCoils,
+        0x10 => WriteMultipleRegisters,
+        0x11 => ReportServerId,
+        0x14 => ReadFileRecord,
+        0x15 => WriteFileRecord,
+        0x16 => MaskWriteRegister,
+        0x17 => ReadWriteMultipleRegisters,
+        0x18 => ReadFifoQueue,
+        0x2B => EncapsulatedInterfaceTransport,
+        v => Custom(v),
+    }
+}
+
+pub fn fc_num(f: FunctionCode) -> u8 {
+    use FunctionCode::*;
+    match f {
+        ReadCoils => 0x01,
+        ReadDiscreteInputs => 0x02,
+        ReadHoldingRegisters => 0x03,
+        ReadInputRegisters => 0x04,
+        WriteSingleCoil => 0x05,
+        WriteSingleRegister => 0x06,
+        ReadExceptionStatus => 0x07,
+        Diagnostics => 0x08,
+        GetCommEventCounter => 0x0B,
+        GetCommEventLog => 0x0C,
+        WriteMultipleCoils => 0x0F,
+        WriteMultipleRegisters => 0x10,
+        ReportServerId => 0x11,
+        ReadFileRecord => 0x14,
+        WriteFileRecord => 0x15,
+        MaskWriteRegister => 0x16,
+        ReadWriteMultipleRegisters => 0x17,
+        ReadFifoQueue => 0x18,
+        EncapsulatedInterfaceTransport => 0x2B,
+        Custom(v) => v,
+    }
+}
+
 pub fn fc_tok(f: FunctionCode) -> String {
-    if FunctionCode::new(f.value()) == f {
-        hex8(f.value())
+    let v = fc_num(f);
+    if fc_from_spec(v) == f {
+        hex8(v)
     } else {
-        format!("c{}", hex8(f.value()))
+        format!("c{}", hex8(v))
+    }
+}
+
+/// the exception codes of the Modbus application protocol (V1.1b3, section 7) – the harness's
+/// own table: tokens name a *variant* by the number the specification gives it, so that a
+/// consistent renumbering inside the library (both of its tables changed alike) shows on the
+/// wire and in what a call returns
+pub fn ex_from_spec(v: u8) -> ExceptionCode {
+    use ExceptionCode::*;
+    match v {
+        0x01 => IllegalFunction,
+        0x02 => IllegalDataAddress,
+        0x03 => IllegalDataValue,
+        0x04 => ServerDeviceFailure,
+        0x05 => Acknowledge,
+        0x06 => ServerDeviceBusy,
+        0x08 => MemoryParityError,
+        0x0A => GatewayPathUnavailable,
+        0x0B => GatewayTargetDevice,
+        v => Custom(v),
+    }
+}
+
+pub fn ex_num(e: ExceptionCode) -> u8 {
+    use ExceptionCode::*;
+    match e {
+        IllegalFunction => 0x01,
+        IllegalDataAddress => 0x02,
+        IllegalDataValue => 0x03,
+        ServerDeviceFailure => 0x04,
+        Acknowledge => 0x05,
+        ServerDeviceBusy => 0x06,
+        MemoryParityError => 0x08,
+        GatewayPathUnavailable => 0x0A,
+        GatewayTargetDevice => 0x0B,
+        Custom(v) => v,
     }
 }
 
 pub fn ex_tok(e: ExceptionCode) -> String {
-    let v: u8 = e.into();
-    if ExceptionCode::new(v) == e {
+    let v = ex_num(e);
+    if ex_from_spec(v) == e {
         hex8(v)
     } else {
         format!("c{}", hex8(v))
@@ -225,7 +316,7 @@ pub fn io_res<T>(r: &io::Result<T>, f: impl Fn(&T) -> String) -> String {
 pub fn call_result(r: &tokio_modbus::Result<Response>) -> String {
     match r {
         Ok(Ok(r)) => format!("ok {}", response(r)),
-        Ok(Err(e)) => format!("exc {}", hex8((*e).into())),
+        Ok(Err(e)) => format!("exc {}", hex8(ex_num(*e))),
         Err(e) => error(e),
     }
 }
@@ -316,7 +407,7 @@ pub fn p_fc(s: &str) -> Option<FunctionCode> {
     if let Some(r) = s.strip_prefix('c') {
         Some(FunctionCode::Custom(p_u8(r)?))
     } else {
-        Some(FunctionCode::new(p_u8(s)?))
+        Some(fc_from_spec(p_u8(s)?))
     }
 }
 
@@ -324,7 +415,7 @@ pub fn p_ex(s: &str) -> Option<ExceptionCode> {
     if let Some(r) = s.strip_prefix('c') {
         Some(ExceptionCode::Custom(p_u8(r)?))
     } else {
-        Some(ExceptionCode::new(p_u8(s)?))
+        Some(ex_from_spec(p_u8(s)?))
     }
 }
 
